@@ -29,6 +29,19 @@ template <class X> static auto tryw_impl(X x, int) -> decltype(x.TryToWrite(std:
 template <class X> static void tryw_impl(X, long) {}
 template <class X> static void tryw(X x) { tryw_impl(x, 0); }
 template <class X> static void readit(const X &x, char h) { if (x.Ok() && h == 'T') (void)x.Read(); }
+// an element at an index >= ElementCount() lies outside the array's extent: it must not be usable, and no write may succeed
+template <class X> static auto past_impl(X x, int) -> decltype(x.TryToWrite(std::declval<typename std::decay<decltype(x.Read())>::type>()), void()) {
+  typedef typename std::decay<decltype(x.Read())>::type VT;
+  typedef typename Und<VT>::type R;
+  if (x.Ok() || x.IsComplete()) { std::fprintf(stderr, "VK: array element past ElementCount() reports Ok/IsComplete\n"); std::abort(); }
+  VT v = static_cast<VT>(static_cast<R>(0));
+  VT w = static_cast<VT>(static_cast<R>(1));
+  if (x.TryToWrite(v) || x.TryToWrite(w)) { std::fprintf(stderr, "VK: write to an array element past ElementCount() succeeded\n"); std::abort(); }
+}
+template <class X> static void past_impl(X x, long) {
+  if (x.Ok()) { std::fprintf(stderr, "VK: array element past ElementCount() reports Ok\n"); std::abort(); }
+}
+template <class X> static void past(X x) { past_impl(x, 0); }
 }  // namespace vk
 '''
 
@@ -54,14 +67,16 @@ def gen_ops(module):
                 elif t[0] == "struct":
                     body.append("    auto s = v.%s(); (void)h; %s(s); }" % (n, cppdrv._obs_name(module, m, alias, t[1]).replace("obs_", "ops_")))
                 elif t[0] == "array":
-                    body.append("    auto a = v.%s(); (void)h; (void)a.Ok(); (void)a.IsComplete(); (void)a.SizeInBytes();" % n
-                                if True else "")
+                    in_bits = s.kind == "bits" or not any(f is g for g in s.fields)
+                    body.append("    auto a = v.%s(); (void)h; (void)a.Ok(); (void)a.IsComplete(); (void)a.SizeIn%s();" % (n, "Bits" if in_bits else "Bytes"))
                     body.append("    for (size_t i = 0; i < a.ElementCount(); ++i) {")
                     if t[1][0] == "struct":
                         body.append("      %s(a[i]);" % cppdrv._obs_name(module, m, alias, t[1][1]).replace("obs_", "ops_"))
                     else:
                         body.append("      auto e = a[i]; vk::readit(e, 'T'); vk::tryw(e);")
-                    body.append("    } }")
+                    body.append("    }")
+                    body.append("    for (size_t i = a.ElementCount(); i < a.ElementCount() + 3; ++i) vk::past(a[i]);")
+                    body.append("    }")
             body.append("}")
             out.extend(body)
     return "\n".join(out)
